@@ -51,6 +51,35 @@ def _work(args):
     return sweep_impl(*args)
 
 
+def reuse_impl(am, origin, lims, reqp, prefer, pad):
+    """ONE Message object rendered at every limit of lims in turn; for each limit: the result, the
+    object's own flags after the call, and the result of rendering a fresh object at that limit"""
+    try:
+        m = g.mk_message(am, pad=pad, request_payload=reqp)
+    except Exception as e:  # noqa
+        return g.exc_code(e)
+    org = None if origin is None else g.N(origin)
+    out = []
+    for lim in lims:
+        try:
+            r = m.to_wire(origin=org, max_size=lim, prefer_truncation=bool(prefer), want_shuffle=False)
+        except Exception as e:  # noqa
+            r = g.exc_code(e)
+        out.append([r, int(m.flags), g.run_render(am, origin, lim, reqp, prefer, pad)])
+    return out
+
+
+def residue_message(n, keyname, tsig_rd, with_option):
+    """www.example. A + a filler record of n opaque octets; the key name shares a suffix with the owners"""
+    ex = [b"example", b""]
+    secs = [[[[b"www"] + ex, g.IN, g.A, 0, None, 0, []]],
+            [[[b"www"] + ex, g.IN, g.A, 0, None, 300, [[bytes([192, 0, 2, 1])]]],
+             [[b"filler"] + ex, g.IN, 65280, 0, None, 300, [[bytes((i * 7 + n) & 0xFF for i in range(n))]]]],
+            [], []]
+    opt = [0, 1232, [[65001, b"\x01\x02\x03"]] if with_option else []]
+    return [4660, 0x0100, secs, opt, [list(keyname), tsig_rd]]
+
+
 _cache = {}
 
 
@@ -156,6 +185,25 @@ def cases(ctx):
             meta.append((am2, None, top, 1, 0))
     for c in clamp:
         yield "clamp", c
+    # padding + TSIG + a key name sharing a suffix with names of the message, with a filler of every
+    # length so that every residue of the pre-padding length modulo the block size occurs (residue 0
+    # included: a zero-length padding option is still written and the TSIG owner must stay uncompressed).
+    # All of them through the oracle (op 10); a sample also through the model (op 1).
+    tsig0 = g.gen_tsig(rng, g.NamePool(rng, None), 4660)
+    while tsig0 is None:
+        tsig0 = g.gen_tsig(rng, g.NamePool(rng, None), 4660)
+    keynames = [[b"key", b"example", b""], [b"www", b"example", b""], [b"k", b"www", b"example", b""],
+                [b"KEY", b"Example", b""], [b"other", b"org", b""]]
+    for pad in (16, 128, 468):
+        base = rng.randrange(1, 40)
+        for n in range(base, base + pad):
+            kn = keynames[n % len(keynames)] if pad != 16 else None
+            for k in ([kn] if kn is not None else keynames[:3]):
+                am = residue_message(n, k, tsig0[1], with_option=bool(n & 1))
+                prefer = rng.choice([0, 1])
+                yield "padres", [10, am, None, 65535, 0, prefer, pad]
+                if rng.random() < (0.25 if pad == 16 else 0.08 if ctx.quick else 0.3):
+                    yield "padres-model", [1, am, None, 65535, 0, prefer, pad]
     # the implementation at EVERY limit (in parallel); the model at both ends of every run of equal
     # outputs, at random limits, and at every limit of sampled chunks
     swept = 0
@@ -174,6 +222,13 @@ def cases(ctx):
             _cache[case_key(normalize(case))] = [rle_at(rle, l) for l in pts]
             ctx.count("runs", len(rle))
             yield "points:" + ("trunc" if prefer else "raise"), case
+            # one and the same Message object rendered at descending then ascending limits (every distinct
+            # result once on the way down and once on the way up, a full rendering after a truncated one)
+            starts = [lim for lim, _ in rle]
+            if len(starts) > 24:
+                starts = sorted(rng.sample(starts, 24))
+            seq = [top] + starts[::-1] + starts + [top, starts[0], top]
+            yield "reuse:" + ("trunc" if prefer else "raise"), [8, am2, origin, seq, 0, prefer, pad]
             for _ in range(ctx.n(1, 1)):
                 lo = rng.randrange(512, max(513, top - CHUNK))
                 n = min(CHUNK, top - lo)
@@ -273,6 +328,12 @@ def impl(case):
     if op == 7:
         _, origin, mid, flags, ms, ops = case
         return g.run_rseq(origin, mid, flags, ms, ops)
+    if op == 8:
+        _, am, origin, lims, reqp, prefer, pad = case
+        return reuse_impl(am, origin, lims, reqp, prefer, pad)
+    if op == 10:
+        _, am, origin, max_size, reqp, prefer, pad = case
+        return g.run_render(am, origin, max_size, reqp, prefer, pad)
     if op == 9:
         _, am, pad, keymode, prefer = case
         try:
@@ -375,7 +436,31 @@ def oracle(ctx, kind, case, out):
     if op == 7:
         g.check_rseq(case, out, fail)
         return F
-    if op == 1:
+    if op == 8:
+        _, am, origin, lims, reqp, prefer, pad = case
+        if isinstance(out, Err):
+            fail("rendering one object repeatedly failed " + out.text)
+            return F
+        for i, (lim, (r, fl, fresh)) in enumerate(zip(lims, out)):
+            if fl != am[1]:
+                fail("Message.to_wire changed the flags of the message object (%#x -> %#x)" % (am[1], fl),
+                     limit=lim, step=i, sig="objflags")
+                break
+            if normalize(r) != normalize(fresh):
+                fail("rendering the same Message object again gives another result than a fresh object "
+                     "(state kept from an earlier rendering)", limit=lim, step=i, previous=lims[:i][-3:], sig="reuse")
+                break
+        for lim, (r, fl, fresh) in zip(lims, out):
+            if isinstance(r, Err):
+                if r.code != 20:
+                    fail("rendering raised something else than TooBig: " + r.text, limit=lim, sig="exc")
+                continue
+            n0 = len(F)
+            check_result(am, origin, lim, prefer, pad, bytes(r), lambda what, **kw: fail(what, limit=lim, **kw))
+            if len(F) > n0:
+                break
+        return F
+    if op in (1, 10):
         _, am, origin, max_size, reqp, prefer, pad = case
         lim = max_size if max_size else (reqp if reqp else 65535)
         if isinstance(out, Err):
